@@ -215,6 +215,20 @@ def json_representable(p, top=True):
     return False
 
 
+def setlist_py(p):
+    """mirror of Codec.setlist: the sets of set_item_added / set_item_removed become the lists of their
+    members (iteration order); everything else is unchanged"""
+    if type(p) is not dict:
+        return p
+    out = {}
+    for k, v in p.items():
+        if k in ("set_item_added", "set_item_removed") and type(v) is dict:
+            out[k] = {q: (list(x) if type(x) is set else x) for q, x in v.items()}
+        else:
+            out[k] = v
+    return out
+
+
 def json_setitems_form(p):
     """The delta is JSON-representable except that it has set_item_added / set_item_removed categories whose
     values are sets of JSON scalars: deepdiff writes those as arrays on purpose (JSON_CONVERTOR[set] = list) and
@@ -546,7 +560,7 @@ def one_case(ctx, rng, idx, out):
         except Exception as e:  # noqa
             reload_err = type(e).__name__
     if not jrep and json_setitems_form(payload):
-        ctx.count("json:set-items(behaviour only)")
+        ctx.count("json:set-items(payload relation + behaviour)")
         jcase = dict(case, path="json", set_items=True, payload=repr(payload))
         if jerr:
             ctx.fail(dict(jcase, stage="dumps", error=jerr), "json_dumps raised %s on a delta with set items" % jerr)
@@ -555,6 +569,33 @@ def one_case(ctx, rng, idx, out):
         else:
             def mkj():
                 return Delta(text, deserializer=json_loads, serializer=json_dumps, bidirectional=bid, always_include_values=aiv)
+            # the payload relation of the model (C14_json_set_items_roundtrip_partial): equal up to set ~ list
+            # of its members at exactly the set-item categories, and stable from the second trip on
+            want_p = setlist_py(payload)
+            if not typed_payload_eq(dj2.diff, want_p):
+                ctx.fail(dict(jcase, stage="payload-relation", loaded=repr(dj2.diff), expected=repr(want_p)),
+                         "the JSON-reloaded payload is not the original with its set items as lists")
+            else:
+                try:
+                    dj3 = Delta(dj2.dumps(), deserializer=json_loads, serializer=json_dumps, bidirectional=bid, always_include_values=aiv)
+                    if not typed_payload_eq(dj3.diff, dj2.diff):
+                        ctx.fail(dict(jcase, stage="second trip", loaded=repr(dj3.diff)), "a second JSON trip changes the payload again")
+                except Exception as e:  # noqa
+                    ctx.fail(dict(jcase, stage="second trip", error=type(e).__name__), "the JSON-reloaded delta cannot be dumped / loaded again")
+            if pcanon is not None and _json_model_domain(payload):
+                try:
+                    from harness import deltacommon as DC
+                    obs_j = DC.delta_obs(dj2.diff) if not kw else None
+                    obs_o = DC.delta_obs(payload) if not kw else None
+                    exp = [pv_canon(dj2.diff), pv_canon(want_p)]
+                    b_ = "true" if bid else "false"
+                    if obs_j is not None and not any(e and e[0] == "UNEXPECTED-CATEGORY" for e in obs_j):
+                        out["jset"].append(("sx_json_sets %s %s" % (b_, pcoq), exp + [obs_j, obs_o], dict(case, corr="json-set-items")))
+                    else:
+                        out["jset"].append(("match sx_json_sets %s %s with SL (a :: b :: _) => SL [a; b] | x => x end" % (b_, pcoq), exp,
+                                            dict(case, corr="json-set-items")))
+                except Exception:
+                    ctx.count("corr:json-set-items-outside-universe")
             for bi, base in enumerate(bases):
                 got = apply_delta(base, mkj())
                 if got != wants[bi]:
@@ -1185,7 +1226,7 @@ def fixed_witnesses(ctx):
 
 def run(ctx):
     n = 2600 if ctx.thorough else 520
-    out = {"vm": [], "enc": [], "json": [], "acc": [], "dlt": [], "enc_max": 600 if ctx.thorough else 160}
+    out = {"vm": [], "enc": [], "json": [], "acc": [], "dlt": [], "jset": [], "enc_max": 600 if ctx.thorough else 160}
     interference_stream(ctx)       # first: everything below also runs after the unrelated calls
     for i in range(n):
         one_case(ctx, ctx.rng, i, out)
@@ -1198,6 +1239,8 @@ def run(ctx):
     from harness import deltacommon as DC
     ctx.coq_cases("c14_delta", DC.HDR[:-1] + " Pickle.Vm Pickle.Codec Pickle.DeltaCodec Pickle.DeltaCodecShow.\nLocal Open Scope Z_scope.",
                   out["dlt"], shard=60, label="decoded dump read as a delta of the application model")
+    ctx.coq_cases("c14_jsonsets", DC.HDR[:-1] + " Pickle.Vm Pickle.Codec Pickle.DeltaCodec Pickle.DeltaCodecShow.\nLocal Open Scope Z_scope.",
+                  out["jset"], shard=60, label="JSON-persisted deltas with set items: payload relation and delta")
     encoder_part(ctx, out["enc"])
     if out["vm"]:
         ctx.sample({"case": out["vm"][0][2], "expected": out["vm"][0][1]})
